@@ -1,8 +1,65 @@
 import Req.Driver.Proto
+import Req.Client.Form
+import Req.Client.Multipart
 /-! Driver lanes of C17. -/
 namespace Req.Driver.L.C17
 open Req.Proto
 
-def lanes : List (String × (List String → String)) := []
+/-- keys + per-key counts + flat values → `Form.Values`. -/
+def mkValues (keys : List Bytes) (counts : List Nat) (vals : List Bytes) : Option Req.Form.Values :=
+  let rec go : List Bytes → List Nat → List Bytes → Option Req.Form.Values
+    | [], [], [] => some []
+    | k :: ks, n :: ns, vs =>
+      if vs.length < n then none
+      else (go ks ns (vs.drop n)).map fun r => (k, vs.take n) :: r
+    | _, _, _ => none
+  go keys counts vals
+
+/-- `c17ordered <args>` → body of handleOrderedFormData, or `err` (odd count). -/
+def laneOrdered : List String → String
+  | [args] =>
+    match decodeList args with
+    | some l => match Req.Form.encodeOrdered l with
+      | some b => encodeHex b
+      | none => "err"
+    | none => "bad-op"
+  | _ => "bad-op"
+
+/-- `c17form <rk> <rc> <rv> <ck> <cc> <cv>` → `Encode()` of request form merged with client form. -/
+def laneForm : List String → String
+  | [rk, rc, rv, ck, cc, cv] =>
+    match decodeList rk, decodeNatList rc, decodeList rv, decodeList ck, decodeNatList cc, decodeList cv with
+    | some rk, some rc, some rv, some ck, some cc, some cv =>
+      match mkValues rk rc rv, mkValues ck cc cv with
+      | some r, some c => encodeHex (Req.Form.encode (Req.Form.mergeForm r c))
+      | _, _ => "bad-op"
+    | _, _, _, _, _, _ => "bad-op"
+  | _ => "bad-op"
+
+/-- stable insertion sort of pairs by key (canonical rendering of a Go map of value lists). -/
+def sortPairs (ps : List Req.Form.Pair) : List Req.Form.Pair :=
+  ps.foldr (fun x acc =>
+    let rec ins : List Req.Form.Pair → List Req.Form.Pair
+      | [] => [x]
+      | y :: ys => if Req.Form.bytesLt y.1 x.1 then y :: ins ys else x :: y :: ys
+    ins acc) []
+
+/-- `c17parseq <body>` → server view (`url.ParseQuery`): keys, values (sorted by key, value
+order kept) and the error flag. -/
+def laneParseQ : List String → String
+  | [body] =>
+    match decodeHex body with
+    | some b =>
+      let (ps, err) := Req.Form.parseForm b
+      let sp := sortPairs ps
+      encodeList (sp.map (·.1)) ++ " " ++ encodeList (sp.map (·.2)) ++ " " ++ (if err then "err" else "ok")
+    | none => "bad-op"
+  | _ => "bad-op"
+
+def lanes : List (String × (List String → String)) := [
+  ("c17ordered", laneOrdered),
+  ("c17form", laneForm),
+  ("c17parseq", laneParseQ)
+]
 
 end Req.Driver.L.C17
